@@ -434,6 +434,10 @@ fn run_case(seed: u64, idx: usize, bin: &str, rt: &std::sync::Arc<tokio::runtime
                 srv.kill9();
             }
             if let Err(e) = srv.start() {
+                if !e.contains("exited during start-up") {
+                    out.inconclusive(format!("case {}: restart watchdog: {}", idx, e));
+                    return;
+                }
                 viol!(format!("restart-failed|{}", phase), "server does not start {}: {}", phase, e);
             }
             cl = match srv.tenant_client("solo") {
